@@ -31,6 +31,7 @@ type Result struct {
 	Violations  []Violation      `json:"violations"`
 	Samples     []any            `json:"samples"`
 	Counters    map[string]int64 `json:"counters"`
+	Digests     map[string]string `json:"digests"`
 	Done        bool             `json:"done"`
 }
 
@@ -111,6 +112,14 @@ func (c *Ctx) ShapeH(h uint64) {
 
 // Count adds to a named counter (evidence only).
 func (c *Ctx) Count(name string, n int64) { c.res.Counters[name] += n }
+
+// Digest records a value that every batch (process) must report identically (cross-process determinism).
+func (c *Ctx) Digest(key, val string) {
+	if c.res.Digests == nil {
+		c.res.Digests = map[string]string{}
+	}
+	c.res.Digests[key] = val
+}
 
 // Sample keeps a few literal cases for the evidence file.
 func (c *Ctx) Sample(v any) {
